@@ -405,6 +405,19 @@ func augmentOriginalFile(file *ast.File, overrides map[string]overrideInfo) {
 							}
 							continue
 						}
+						if len(s.Names) > 1 && len(s.Names) == len(s.Values) && j+1 < len(d.Specs) {
+							// Some names of a multi-name spec are overridden and another spec
+							// follows, which may repeat this spec's expression list: the list
+							// has to keep its length, so blank the overridden names instead
+							// of removing them together with their values.
+							for _, name := range s.Names {
+								if _, ok := overrides[name.Name]; ok {
+									anyChange = true
+									name.Name = `_`
+								}
+							}
+							continue
+						}
 					}
 					if len(s.Names) == len(s.Values) {
 						// multi-value context
